@@ -138,20 +138,8 @@ func ruleMODE1(c *Ctx) {
 			"pop: an empty stack is an error; otherwise the mode field receives Peek(0) and exactly one element is popped",
 			fmt.Sprintf("pop arm breaks the stack discipline (empty-stack error: %v, mode = Peek(0): %v, Pop(1) afterwards: %v)", emptyGuard, peek0, order))
 	}
-	// _Stack semantics
-	checkStack := func(name, want string) {
-		fd, _ := ti.FuncDecl("_Stack." + name)
-		construct := "template/_Stack." + name
-		if fd == nil || len(fd.Body.List) != 1 {
-			c.unres(rule, construct, "", "method not found or not a single statement")
-			return
-		}
-		got := strings.Join(strings.Fields(nodeText(fd.Body.List[0])), " ")
-		c.check(got == want, rule, construct, ti.Pos(fd.Pos()), name+": "+want, name+" is `"+got+"`, expected `"+want+"`")
-	}
-	checkStack("Push", "*s = append(*s, x)")
-	checkStack("Pop", "*s = (*s)[:len(*s) - n]")
-	checkStack("Peek", "return s[len(s) - n - 1]")
+	// _Stack semantics, independent of parameter / local names and of arithmetic order
+	checkStackOps(c, rule, ti)
 	// initial mode: the first table of _lexerModes
 	okInit := false
 	ast.Inspect(r.fd.Body, func(n ast.Node) bool {
@@ -739,6 +727,45 @@ func ruleMODE4(c *Ctx) {
 
 // ---- EOFL: consumption accounting ----
 
+// fieldSets lists the `recv.field = value` assignments executed by a statement list, following
+// calls to methods of the same receiver one level deep (helper such as _startToken()).
+func fieldSets(ti *TmplInstance, list []ast.Stmt, before ast.Node) map[string]string {
+	info := ti.Info
+	out := map[string]string{}
+	var scan func(list []ast.Stmt, depth int)
+	scan = func(list []ast.Stmt, depth int) {
+		for _, s := range list {
+			if before != nil && depth == 0 && s.Pos() >= before.Pos() {
+				break
+			}
+			switch x := s.(type) {
+			case *ast.AssignStmt:
+				for k, l := range x.Lhs {
+					if fv, _ := selField(info, l); fv != nil && k < len(x.Rhs) && len(x.Lhs) == len(x.Rhs) {
+						out[fv.Name()] = exprString(x.Rhs[k])
+					}
+				}
+			case *ast.ExprStmt:
+				call, ok := x.X.(*ast.CallExpr)
+				if !ok || depth > 0 {
+					continue
+				}
+				if fn := calleeFunc(info, call); fn != nil && fn.Pkg() == ti.Pkg {
+					for _, f := range ti.AllFiles {
+						for _, d := range f.Decls {
+							if fd, ok := d.(*ast.FuncDecl); ok && fd.Body != nil && info.Defs[fd.Name] == types.Object(fn) && fd.Recv != nil {
+								scan(fd.Body.List, depth+1)
+							}
+						}
+					}
+				}
+			}
+		}
+	}
+	scan(list, 0)
+	return out
+}
+
 func ruleEOFL(c *Ctx) {
 	ta := c.tmplOrUnres("EOFL-1")
 	if ta == nil {
@@ -753,91 +780,55 @@ func ruleEOFL(c *Ctx) {
 	}
 	consume, _ := ti.Pkg.Scope().Lookup("_lexerConsume").(*types.Const)
 	eof, _ := ti.Pkg.Scope().Lookup("_lexerEOF").(*types.Const)
-	// the EOF exit
-	var eofIf *ast.IfStmt
+	par := parents(r.fd)
+	runeParam := paramObj(info, r.fd, 0)
+	// the EOF exits
+	var eofRets []*ast.ReturnStmt
 	ast.Inspect(r.fd.Body, func(n ast.Node) bool {
-		ifs, ok := n.(*ast.IfStmt)
-		if !ok || len(ifs.Body.List) != 1 {
-			return true
-		}
-		if rs, ok := ifs.Body.List[0].(*ast.ReturnStmt); ok && len(rs.Results) == 1 && eof != nil && usesObj(info, rs.Results[0]) == types.Object(eof) {
-			eofIf = ifs
+		if rs, ok := n.(*ast.ReturnStmt); ok && len(rs.Results) == 1 && eof != nil && usesObj(info, rs.Results[0]) == types.Object(eof) {
+			eofRets = append(eofRets, rs)
 		}
 		return true
 	})
-	if eofIf == nil {
-		c.bad("EOFL-3", "template/PushRune/eof-exit", ti.Pos(r.fd.Pos()), "no `if ... { return _lexerEOF }` exit")
+	if len(eofRets) == 0 {
+		c.bad("EOFL-3", "template/PushRune/eof-exit", ti.Pos(r.fd.Pos()), "no `return _lexerEOF` exit")
 		return
 	}
-	// which field does the EOF test read as "nothing consumed"?
+	c.check(len(eofRets) == 1, "EOFL-3", "template/PushRune/single-eof-exit", ti.Pos(eofRets[0].Pos()), "there is exactly one EOF exit", fmt.Sprintf("%d EOF exits", len(eofRets)))
+	facts := pathConds(info, par, eofRets[0])
 	var flag *types.Var
 	stateBased := false
 	endOfInput := false
-	for _, cj := range conjuncts(eofIf.Cond) {
-		if u, ok := cj.(*ast.UnaryExpr); ok && u.Op == token.NOT {
-			if fv, _ := selField(info, u.X); fv != nil && isBool(fv.Type()) {
+	for _, f := range facts {
+		if f.neg {
+			if fv, _ := selField(info, f.e); fv != nil && isBool(fv.Type()) {
 				flag = fv
 			}
 		}
-		if be, ok := cj.(*ast.BinaryExpr); ok && be.Op == token.EQL {
-			if fv, _ := selField(info, be.X); fv != nil && fv.Name() == "state" {
-				if v, ok := constInt(info, be.Y); ok && v == 0 {
+		if l, op, rr, ok := cmpFact(f.e, !f.neg); ok && op == token.EQL {
+			if fv, _ := selField(info, l); fv != nil && fv.Name() == "state" {
+				if v, ok := constInt(info, rr); ok && v == 0 {
 					stateBased = true
 				}
 			}
-			if v, ok := constInt(info, be.Y); ok && v == -1 {
-				if o := usesObj(info, be.X); o != nil && o == paramObj(info, r.fd, 0) {
-					endOfInput = true
-				}
+			if v, ok := constInt(info, rr); ok && v == -1 && usesObj(info, l) == runeParam {
+				endOfInput = true
 			}
 		}
 	}
-	c.check(endOfInput && eofIf.Pos() > r.loop.End(), "EOFL-3", "template/PushRune/eof-exit", ti.Pos(eofIf.Pos()),
-		"EOF is reported only for the end-of-input rune, after the action loop", "EOF can be reported for a rune other than end-of-input, or before the pending actions ran")
-	nEOF := 0
-	ast.Inspect(r.fd.Body, func(n ast.Node) bool {
-		if rs, ok := n.(*ast.ReturnStmt); ok && len(rs.Results) == 1 && eof != nil && usesObj(info, rs.Results[0]) == types.Object(eof) {
-			nEOF++
-		}
-		return true
-	})
-	c.check(nEOF == 1, "EOFL-3", "template/PushRune/single-eof-exit", ti.Pos(eofIf.Pos()), "there is exactly one EOF exit", fmt.Sprintf("%d EOF exits", nEOF))
-
+	c.check(endOfInput, "EOFL-3", "template/PushRune/eof-exit", ti.Pos(eofRets[0].Pos()),
+		"EOF is reported only for the end-of-input rune", "EOF can be reported for a rune other than end-of-input")
 	if flag == nil {
 		if stateBased {
-			c.bad("EOFL-1", "template/PushRune/boundary-test", ti.Pos(eofIf.Pos()),
+			c.bad("EOFL-1", "template/PushRune/boundary-test", ti.Pos(eofRets[0].Pos()),
 				"EOF (token boundary) is inferred from `state == 0`; DFA minimisation merges the start state with other states (dfa.optimize has no isolation of state 0), so input can end inside a token and be reported as a clean EOF, and an accepting start state yields endless empty tokens")
 		} else {
-			c.bad("EOFL-1", "template/PushRune/boundary-test", ti.Pos(eofIf.Pos()), "the EOF test does not establish that nothing was consumed since the last token boundary")
+			c.bad("EOFL-1", "template/PushRune/boundary-test", ti.Pos(eofRets[0].Pos()), "the EOF exit does not require that nothing was consumed since the last token boundary")
 		}
 		return
 	}
-	c.ok("EOFL-1", "template/PushRune/boundary-test", ti.Pos(eofIf.Pos()), "EOF requires !%s: an explicit record of whether input was consumed since the last token boundary", flag.Name())
-	setsFlag := func(list []ast.Stmt, before ast.Node, val string) bool {
-		for _, s := range list {
-			if s.Pos() >= before.Pos() {
-				break
-			}
-			if as, ok := s.(*ast.AssignStmt); ok && len(as.Lhs) == 1 {
-				if fv, _ := selField(info, as.Lhs[0]); fv == flag && exprString(as.Rhs[0]) == val {
-					return true
-				}
-			}
-		}
-		return false
-	}
-	par := parents(r.fd)
-	blockOf := func(n ast.Node) []ast.Stmt {
-		for q := par[n]; q != nil; q = par[q] {
-			switch x := q.(type) {
-			case *ast.BlockStmt:
-				return x.List
-			case *ast.CaseClause:
-				return x.Body
-			}
-		}
-		return nil
-	}
+	c.ok("EOFL-1", "template/PushRune/boundary-test", ti.Pos(eofRets[0].Pos()), "EOF requires !%s: an explicit record of whether input was consumed since the last token boundary", flag.Name())
+	blockOf := func(n ast.Node) []ast.Stmt { return enclosingList(par, n) }
 	// (i) every consume sets the flag
 	nCons := 0
 	ast.Inspect(r.fd.Body, func(n ast.Node) bool {
@@ -846,7 +837,8 @@ func ruleEOFL(c *Ctx) {
 			return true
 		}
 		nCons++
-		c.check(setsFlag(blockOf(rs), rs, "true"), "EOFL-1", "template/PushRune/consume-sets-flag", ti.Pos(rs.Pos()),
+		sets := fieldSets(ti, blockOf(rs), rs)
+		c.check(sets[flag.Name()] == "true", "EOFL-1", "template/PushRune/consume-sets-flag", ti.Pos(rs.Pos()),
 			"every `return _lexerConsume` is preceded by "+flag.Name()+" = true", "a rune is consumed without recording it in "+flag.Name()+": the input could end inside a token and be reported as EOF")
 		return true
 	})
@@ -864,15 +856,8 @@ func ruleEOFL(c *Ctx) {
 		v, _ := constant.Int64Val(k.Val())
 		arm := r.arms[v]
 		last := arm.Body[len(arm.Body)-1]
-		clears := setsFlag(arm.Body, last, "false")
-		state0 := false
-		for _, s := range arm.Body {
-			if as, ok := s.(*ast.AssignStmt); ok && len(as.Lhs) == 1 {
-				if fv, _ := selField(info, as.Lhs[0]); fv != nil && fv.Name() == "state" && exprString(as.Rhs[0]) == "0" {
-					state0 = true
-				}
-			}
-		}
+		sets := fieldSets(ti, arm.Body, last)
+		clears, state0 := sets[flag.Name()] == "false", sets["state"] == "0"
 		c.check(clears && state0, "EOFL-1", "template/PushRune/boundary("+name+")", ti.Pos(arm.Pos()),
 			"the arm ends a token: it resets the state to 0 and clears "+flag.Name(),
 			fmt.Sprintf("the arm ends a token but does not reset both the state (%v) and %s (%v): the next empty match would run actions again without consuming anything (endless loop), or EOF would be missed", state0, flag.Name(), clears))
@@ -881,51 +866,42 @@ func ruleEOFL(c *Ctx) {
 	if rf, _ := ti.FuncDecl("_LexerStateMachine.Reset"); rf == nil {
 		c.unres("EOFL-1", "template/Reset", "", "Reset not found")
 	} else {
-		cl, st := false, false
-		for _, s := range rf.Body.List {
-			if as, ok := s.(*ast.AssignStmt); ok && len(as.Lhs) == 1 {
-				fv, _ := selField(info, as.Lhs[0])
-				if fv == flag && exprString(as.Rhs[0]) == "false" {
-					cl = true
-				}
-				if fv != nil && fv.Name() == "state" && exprString(as.Rhs[0]) == "0" {
-					st = true
-				}
-			}
-		}
-		c.check(cl && st, "EOFL-1", "template/Reset", ti.Pos(rf.Pos()), "Reset (called by the driver after an error) returns to state 0 with nothing consumed",
+		sets := fieldSets(ti, rf.Body.List, nil)
+		c.check(sets[flag.Name()] == "false" && sets["state"] == "0", "EOFL-1", "template/Reset", ti.Pos(rf.Pos()), "Reset (called by the driver after an error) returns to state 0 with nothing consumed",
 			"Reset does not restore both state 0 and "+flag.Name()+" = false: after an error the machine resumes in a stale state and can report errors for ever")
 	}
-	// EOFL-2: no empty token: actions unreachable while nothing was consumed
-	guard := false
-	for _, s := range r.fd.Body.List {
-		if s.Pos() >= r.loop.Pos() {
-			break
-		}
-		ifs, ok := s.(*ast.IfStmt)
-		if !ok || len(ifs.Body.List) != 1 || ifs.Else != nil {
-			continue
-		}
-		if u, ok := ifs.Cond.(*ast.UnaryExpr); ok && u.Op == token.NOT {
-			if fv, _ := selField(info, u.X); fv == flag {
-				if as, ok := ifs.Body.List[0].(*ast.AssignStmt); ok && len(as.Lhs) == 1 && exprString(as.Lhs[0]) == r.idxVar {
-					if be, ok := r.loop.Cond.(*ast.BinaryExpr); ok && be.Op == token.LSS && sameExpr(be.Y, as.Rhs[0]) {
-						guard = true
+	// EOFL-2: no empty token: the action loop is unreachable while nothing was consumed
+	guard := holds(pathConds(info, par, r.loop), func(e ast.Expr, pos bool) bool {
+		fv, _ := selField(info, e)
+		return pos && fv == flag
+	})
+	if !guard {
+		// form: if !flag { i = end } right before the loop
+		for _, s := range enclosingList(par, r.loop) {
+			if s.Pos() >= r.loop.Pos() {
+				break
+			}
+			ifs, ok := s.(*ast.IfStmt)
+			if !ok || len(ifs.Body.List) != 1 || ifs.Else != nil {
+				continue
+			}
+			if u, ok := ifs.Cond.(*ast.UnaryExpr); ok && u.Op == token.NOT {
+				if fv, _ := selField(info, u.X); fv == flag {
+					if as, ok := ifs.Body.List[0].(*ast.AssignStmt); ok && len(as.Lhs) == 1 && exprString(as.Lhs[0]) == r.idxVar {
+						if be, ok := r.loop.Cond.(*ast.BinaryExpr); ok && be.Op == token.LSS && sameExpr(be.Y, as.Rhs[0]) {
+							guard = true
+						}
 					}
 				}
 			}
 		}
 	}
-	for q := par[r.loop]; q != nil; q = par[q] {
-		if ifs, ok := q.(*ast.IfStmt); ok && containsNode(ifs.Body, r.loop) {
-			if fv, _ := selField(info, ifs.Cond); fv == flag {
-				guard = true
-			}
-		}
-	}
 	c.check(guard, "EOFL-2", "template/PushRune/no-empty-token", ti.Pos(r.loop.Pos()),
-		"the action loop is skipped while nothing was consumed: a match of the empty string is never a token",
+		"the action loop is not reached while nothing was consumed: a match of the empty string is never a token",
 		"actions can run in a state reached without consuming input: a rule matching the empty string yields an endless stream of empty tokens")
+	// EOF is not reported while actions are pending: either it follows the loop, or its path excludes consumption
+	c.check(eofRets[0].Pos() > r.loop.End() || holds(facts, func(e ast.Expr, pos bool) bool { fv, _ := selField(info, e); return !pos && fv == flag }), "EOFL-3", "template/PushRune/eof-after-actions", ti.Pos(eofRets[0].Pos()),
+		"EOF is only reported when no action of the current state can be pending", "EOF can be reported before the pending actions ran")
 	// the flag is written nowhere else
 	other := 0
 	for _, f := range ti.AllFiles {
@@ -942,3 +918,71 @@ func ruleEOFL(c *Ctx) {
 }
 
 var _ = packages.NeedName
+
+func checkStackOps(c *Ctx, rule string, ti *TmplInstance) {
+	info := ti.Info
+	get := func(name string) (*ast.FuncDecl, string, string, map[types.Object]ast.Expr) {
+		fd, _ := ti.FuncDecl("_Stack." + name)
+		if fd == nil || fd.Recv == nil || len(fd.Recv.List[0].Names) != 1 || len(fd.Type.Params.List) != 1 {
+			return nil, "", "", nil
+		}
+		return fd, fd.Recv.List[0].Names[0].Name, fd.Type.Params.List[0].Names[0].Name, localDefs(info, fd.Body)
+	}
+	// Push: *recv = append(*recv, param)
+	if fd, recv, prm, defs := get("Push"); fd == nil {
+		c.unres(rule, "template/_Stack.Push", "", "method not found")
+	} else {
+		ok := false
+		ast.Inspect(fd.Body, func(n ast.Node) bool {
+			as, isAs := n.(*ast.AssignStmt)
+			if !isAs || len(as.Lhs) != 1 || canonExpr(info, defs, as.Lhs[0], 0) != "*"+recv {
+				return true
+			}
+			if canonExpr(info, defs, as.Rhs[0], 0) == "append(*"+recv+","+prm+")" {
+				ok = true
+			}
+			return true
+		})
+		c.check(ok, rule, "template/_Stack.Push", ti.Pos(fd.Pos()), "Push appends its argument at the end", "Push does not append its argument at the end of the stack")
+	}
+	// Pop(n): *recv = (*recv)[:len(*recv)-n]
+	if fd, recv, prm, defs := get("Pop"); fd == nil {
+		c.unres(rule, "template/_Stack.Pop", "", "method not found")
+	} else {
+		ok := false
+		ast.Inspect(fd.Body, func(n ast.Node) bool {
+			as, isAs := n.(*ast.AssignStmt)
+			if !isAs || len(as.Lhs) != 1 || canonExpr(info, defs, as.Lhs[0], 0) != "*"+recv {
+				return true
+			}
+			sl, isSl := resolveVia(info, defs, as.Rhs[0]).(*ast.SliceExpr)
+			if !isSl || sl.High == nil || (sl.Low != nil && exprString(sl.Low) != "0") || canonExpr(info, defs, sl.X, 0) != "*"+recv {
+				return true
+			}
+			t, k := linearForm(info, defs, sl.High)
+			ok = sameLinear(t, k, map[string]int64{"len(*" + recv + ")": 1, prm: -1}, 0)
+			return true
+		})
+		c.check(ok, rule, "template/_Stack.Pop", ti.Pos(fd.Pos()), "Pop(n) keeps the first len-n elements", "Pop(n) does not reslice the stack to its first len-n elements")
+	}
+	// Peek(n): recv[len(recv)-n-1]
+	if fd, recv, prm, defs := get("Peek"); fd == nil {
+		c.unres(rule, "template/_Stack.Peek", "", "method not found")
+	} else {
+		ok := false
+		ast.Inspect(fd.Body, func(n ast.Node) bool {
+			rs, isR := n.(*ast.ReturnStmt)
+			if !isR || len(rs.Results) != 1 {
+				return true
+			}
+			ix, isIx := resolveVia(info, defs, rs.Results[0]).(*ast.IndexExpr)
+			if !isIx || canonExpr(info, defs, ix.X, 0) != recv {
+				return true
+			}
+			t, k := linearForm(info, defs, ix.Index)
+			ok = sameLinear(t, k, map[string]int64{"len(" + recv + ")": 1, prm: -1}, -1)
+			return true
+		})
+		c.check(ok, rule, "template/_Stack.Peek", ti.Pos(fd.Pos()), "Peek(n) returns the element n below the top", "Peek(n) does not return element len-n-1")
+	}
+}
